@@ -32,18 +32,20 @@ def node_ranges(parse_line):
     return nodes, errs
 
 
-def accounting(text, lex_line, parse_line):
+def accounting(text, lex_line, parse_line, fid="0", tree=False):
     if ".macro" in text.lower():
         return None
     nodes, errs = node_ranges(parse_line)
-    errlines = set(l for l, f in errs if f == "0")
+    errlines = set(l for l, f in errs if f == fid)
+    # an `.include` line that was followed produces no node of its own: its text is replaced by the included file
+    inclines = set(i for i, l in enumerate(text.split("\n")) if re.match(r"^[ \t,]*\.include\b", l, re.I)) if tree else set()
     for it in C09.parse_items(lex_line):
         if it["tag"] == "K" and it["kind"] in ("nl", "com"):
             continue
         sr, er, ln = it["start"][2], it["end"][2], it["start"][0]
-        if it["tag"] == "K" and any(a <= sr and er <= b and f == "0" for a, b, f in nodes):
+        if it["tag"] == "K" and any(a <= sr and er <= b and f == fid for a, b, f in nodes):
             continue
-        if ln in errlines:
+        if ln in errlines or ln in inclines:
             continue
         return "line %d: %s %r at raw %d..%d is in no node and no parse error is reported on its line" % (
             ln + 1, it["tag"], text[sr:er + 1], sr, er)
@@ -109,6 +111,33 @@ def run(ctx):
         why = accounting(normalize(t), a, c)
         if why:
             failing.append(dict(text=t, why=why, parse=c[:800]))
+    # include trees: the accounting holds in every file, whether or not its last line ends with a newline
+    tails = ["jalr t1", "lw a0, 4", "sw a0, 4", "addi a0, a0", "ret", "li t0, 5", "frob", ".word 7", "j main", "x: addi a0, a0, 1", "lw t0, (sp)"]
+    trees = []
+    for _ in range(60 * k):
+        nfi = rng.randrange(2, 4)
+        files = []
+        for i in range(nfi):
+            body = gen.render(rng, gen.program(rng, rng.randrange(1, 6)), dict(crlf=False, final_nl=True))
+            body = "".join(l for l in body.splitlines(True) if ".include" not in l and ".macro" not in l.lower())
+            inc = '.include "f%d.s"\n' % (i + 1) if i + 1 < nfi else ""
+            last = rng.choice(tails) + ("" if rng.random() < 0.6 else "\n")
+            files.append(("f%d.s" % i, (inc + body if rng.random() < 0.5 else body + inc) + last))
+        trees.append(files)
+    tp = lib.run_impl(ctx, [lib.store_cmd("parse", f, "f0.s") for f in trees], tag="impl-tree-parse")
+    tpm = lib.run_model(ctx, [lib.store_cmd("parse", f, "f0.s") for f in trees], tag="model-tree-parse")
+    tl = lib.run_impl(ctx, ["lex " + lib.enc(normalize(t)) for f in trees for _, t in f], tag="impl-tree-lex")
+    pos = 0
+    for files, c, d in zip(trees, tp, tpm):
+        if c != d:
+            dis.append(dict(stage="parse", text=str(files), diff=pipe.first_diff(c, d)))
+        # file ids are import order: f0 includes f1 includes f2 - when the include line comes first or last, the order is the same
+        for i, (name, t) in enumerate(files):
+            why = accounting(normalize(t), tl[pos + i], c, fid=str(i), tree=True) if c not in ("PANIC", "TIMEOUT", "CRASH") else "parser " + c
+            if why:
+                failing.append(dict(text=str(files), why="in included file %s: %s" % (name, why), parse=c[:800]))
+                break
+        pos += len(files)
     # delete-one-line differential on the implementation: pick lines on which an error is reported
     diff_cases = []
     for t, c in zip(texts, pi):
@@ -138,7 +167,7 @@ def run(ctx):
             failing.append(dict(text=t, deleted_line=ln + 1, why="deleting malformed line %d changes how other lines are parsed" % (ln + 1),
                                 expected=pipe.first_diff(exp, b)))
     ctx.coverage.update(
-        evaluations=2 * len(texts) + 2 * len(diff_cases), distinct_nontrivial=len(set(t for t in texts if t.strip())),
+        evaluations=2 * len(texts) + 2 * len(diff_cases) + 2 * len(trees), distinct_nontrivial=len(set(t for t in texts if t.strip())),
         rule="texts = hand-written malformed-line cases + rendered programs + line-mutated programs + token soup; each is lexed and "
              "parsed (RVParser::parse_from_file over an in-memory reader) by the implementation and by the extracted model and the "
              "items, nodes and errors compared; oracle (i) token accounting on the implementation's output, (ii) %d delete-one-line "
